@@ -7,6 +7,7 @@ import (
 	"io"
 	"net"
 	"sort"
+	"testing/synctest"
 	"time"
 
 	"github.com/skycoin/skycoin/src/cipher"
@@ -67,6 +68,7 @@ type nodeLimits struct {
 
 type netKnobs struct {
 	maxOutgoingMsgLen   uint64
+	eventQueue          int // capacity of the daemon's event queue (0 = default)
 	maxGetBlocksResp    uint64
 	getBlocksRequestCnt uint64
 	ipCountsMax         int
@@ -178,6 +180,9 @@ func (ns *netSim) addDaemon(n *node, ip string, port uint16, mirror uint32) *net
 	if ns.knobs.maxIncomingMsgLen > 0 {
 		cfg.Pool.MaxIncomingMessageLength = ns.knobs.maxIncomingMsgLen
 		cfg.Daemon.MaxIncomingMessageLength = uint64(ns.knobs.maxIncomingMsgLen)
+	}
+	if ns.knobs.eventQueue > 0 {
+		cfg.Pool.EventChannelSize = ns.knobs.eventQueue
 	}
 	if len(ns.defaultConns) > 0 {
 		cfg.Pex.DefaultConnections = append([]string{}, ns.defaultConns...)
@@ -382,6 +387,31 @@ func (ns *netSim) deliver(l *link, data []byte, cuts []int) {
 		prev = c
 	}
 	feed(data[prev:])
+}
+
+// deliverUnderBackPressure: like deliver, for a node whose event queue may be shorter than the burst.  The bytes are
+// fed from a goroutine of their own; when the queue is full that goroutine blocks in the node's own code (durably: a
+// channel send), the bubble becomes quiescent, and the run loop's work is done here - events are drained and handled -
+// until the feeder has finished.  One goroutine runs at a time, so the run stays a function of the tape.
+func (ns *netSim) deliverUnderBackPressure(l *link, data []byte, cuts []int) {
+	done := make(chan struct{})
+	go func() {
+		defer close(done)
+		ns.deliver(l, data, cuts)
+	}()
+	for i := 0; ; i++ {
+		synctest.Wait()
+		select {
+		case <-done:
+			return
+		default:
+		}
+		ns.c.Count("fault.event_queue_full_back_pressure")
+		ns.pump()
+		if i > 100000 {
+			sim.Harnessf("delivery under back-pressure does not end")
+		}
+	}
 }
 
 // ---- frames ---------------------------------------------------------------------
